@@ -376,6 +376,9 @@ Proof.
     + match type of H with on_task_update ?s1 _ _ = _ => assert (T : EX s1 (s', outs)) by (eapply on_task_update_EX; [exact (Hc p us rest eq_refl Eu) | exact H]) end.
       destruct T as (ext & E & F). cbn [snd] in E. rewrite E. constructor; [apply Hd; exact I | exact F].
     + unfold on_retract_response in H. destruct (retract_response_states _ w ids []) as [c' groups].
+      apply bind_ok in H. destruct H as (s2 & H & H2).
+      assert (Es : snd (s', outs) = snd s2) by (destruct (retract_wakes _ _ _ _); inversion H2; subst; reflexivity).
+      cbn [snd] in Es. rewrite Es.
       pose proof (send_redirected_snd _ _ _ H) as E. cbn [snd st_core] in E. rewrite E. constructor; [apply Hd; exact I | constructor].
   - destruct (c_flag (s_core s)); [|discriminate]. pose proof (run_scheduling_snd _ _ _ H) as E. cbn [snd] in E. rewrite E. constructor.
   - destruct (find_proc _ w) as [p|]; [|discriminate]. inv_binds H. inversion H; subst. apply Forall_map_launch. exact Hd.
